@@ -70,13 +70,13 @@ func TestCheck(t *testing.T) {
 		r.Require(r.Counter("allocate_probe_local_in_effect") > 200, "the local fallback was hardly ever in effect during allocate probes")
 		r.Require(r.Counter("count_det_steps") >= 100, "too few deterministic count-strategy steps")
 		r.Require(r.Counter("carryover_cases") >= int64(r.N(20, 200)), "too few deterministic carry-over cases completed")
-		r.Require(r.Counter("multi_steps") >= int64(r.N(4000, 80000)) && r.Counter("multi_exact_quota_checks") >= 200 && r.Counter("multi_probes_remote_may_be_in_effect") >= 1000 &&
-			r.Counter("multi_gate_toggles") >= 100 && r.Counter("multi_recreates") >= 40 && r.Counter("multi_items_duplicate_name") >= 100 && r.Counter("multi_items_case_variant_of_existing") >= 50 &&
-			r.Counter("multi_boundary_local_0") >= 20 && r.Counter("multi_boundary_global_1") >= 20 && r.Counter("multi_boundary_global_maxint32") >= 20,
+		r.Require(r.Counter("multi_steps") >= int64(r.N(4000, 80000)) && r.Counter("multi_exact_quota_checks") >= int64(r.N(200, 5000)) && r.Counter("multi_probes_remote_may_be_in_effect") >= int64(r.N(1000, 20000)) &&
+			r.Counter("multi_gate_toggles") >= int64(r.N(100, 3000)) && r.Counter("multi_recreates") >= int64(r.N(40, 1000)) && r.Counter("multi_items_duplicate_name") >= int64(r.N(100, 5000)) && r.Counter("multi_items_case_variant_of_existing") >= int64(r.N(50, 2000)) &&
+			r.Counter("multi_boundary_local_0") >= int64(r.N(20, 500)) && r.Counter("multi_boundary_global_1") >= int64(r.N(20, 500)) && r.Counter("multi_boundary_global_maxint32") >= int64(r.N(20, 500)),
 			"the multi-schema phase did not exercise enough answers / gate toggles / re-creations / boundary configurations")
 		r.Require(r.Counter("race_rounds") >= int64(r.N(14000, 60000)), "too few answer-vs-reconfigure race rounds completed")
 		r.Require(r.Counter("idle_checks") >= int64(r.N(3, 10)), "too few idle-flow checks were decided")
-		r.Require(r.Counter("rec_recovery_checks") >= int64(r.N(10, 40)) && r.Counter("rec_fallback_checks") >= int64(r.N(8, 32)) && r.Counter("rec_fallback_limit_checks") >= int64(r.N(2, 8)), "too few outage/recovery progress checks were decided")
+		r.Require(r.Counter("rec_recovery_checks") >= int64(r.N(10, 40)) && r.Counter("rec_fallback_checks") >= int64(r.N(8, 32)) && r.Counter("rec_fallback_limit_checks") >= int64(r.N(2, 6)), "too few outage/recovery progress checks were decided")
 		r.Require(r.Counter("allocate_reconfigurations") >= 100 && r.Counter("count_det_reconfigurations") >= 50, "too few reconfiguration steps")
 		r.Require(r.Counter("rt_acquire_replies") >= 500, "the count-strategy workers hardly ever reached the stub server")
 		r.Require(r.Counter("rt_admissions") >= 2000, "too few admissions in the real-time phase")
